@@ -36,28 +36,25 @@ type skipRef struct {
 	Sites map[string][]string `json:"sites"`
 }
 
-var skipGroups = []struct {
-	rule  string
-	props []string
-	pkgs  []string
-	files func(base string) bool
-}{
-	{"R01.11", []string{"C01", "C02", "C03", "C04", "C05", "C06", "C07", "C08", "C10"}, []string{"pkg/blobstore/local"}, nil},
-	{"R09.7", []string{"C09", "C15", "C16", "C10", "C01", "C08", "C04"}, []string{"pkg/blobstore/buffer"}, nil},
-	{"R11.7", []string{"C11"}, []string{"pkg/blobstore/mirrored"}, nil},
-	{"R12.9", []string{"C12"}, []string{"pkg/blobstore/sharding"}, nil},
-	{"R13.7", []string{"C13"}, []string{"pkg/blobstore/completenesschecking"}, nil},
-	{"R14.8", []string{"C14"}, []string{"pkg/blobstore/grpcservers", "pkg/blobstore/grpcclients"}, nil},
-	{"R17.7", []string{"C17", "C11"}, []string{"pkg/blobstore/replication", "pkg/blobstore/readcaching", "pkg/blobstore/readfallback"}, nil},
-	{"R18.8", []string{"C18", "C19", "C17"}, []string{"pkg/blobstore", "pkg/auth"}, nil},
-}
+var skipGroups = groupsOf([][]string{
+	{"R01.11", "local"},
+	{"R09.7", "buffer"},
+	{"R11.7", "mirrored"},
+	{"R12.9", "sharding"},
+	{"R13.7", "completeness"},
+	{"R14.8", "grpc"},
+	{"R17.7", "replication"},
+	{"R18.8", "top"},
+	{"R20.14", "digest"},
+	{"R02.12", "config"},
+})
 
 func init() {
 	for i := range skipGroups {
 		g := skipGroups[i]
 		register(&Rule{
 			ID: g.rule, Props: g.props, Engine: "condition-kind drift against the reference tree (SSA dominance)",
-			Text: "no new way around a step (" + strings.Join(g.pkgs, ", ") + "): every call through one of the module's own interfaces (backends, replicators, authorizers, index and block-list operations) that exists on the reference tree at the same site (function, interface method, ordinal) is dominated only by the kinds of condition that dominated it there – plus error tests and loop bounds; a length / size / emptiness test, a boolean helper or a flag that newly decides whether the call happens is how a fast path that skips the step looks",
+			Text:  "no new way around a step (" + strings.Join(g.pkgs, ", ") + "): every step – a call through an interface of the module or of a dependency (backends, replicators, authorizers, index and block-list operations, gRPC streams), a call of a function of the module that is not a getter, a store to a struct field, an append, a map update, a channel send or close, and every construction of an error (a rejection) – that exists on the reference tree at the same site (function, kind of step, position among the steps of that kind; by kind alone when their number changed) is dominated only by the kinds of condition that dominated it there – plus error tests and loop bounds; a length / size / emptiness test, a boolean helper or a flag that newly decides whether the call happens is how a fast path that skips the step looks",
 			Floor: 1, MustExist: false, Run: func(c *Ctx) { runSkipCond(c, g.pkgs) },
 		})
 	}
@@ -199,8 +196,8 @@ func condKind(cond ssa.Value) string {
 		fieldNames := map[string]bool{}
 		for _, side := range []ssa.Value{x.X, x.Y} {
 			involves(side, func(y ssa.Value) bool {
-				if f, _ := loadedField(y); f != nil {
-					fieldNames[f.Name()] = true
+				if n := canonLoadedFieldName(y); n != "" {
+					fieldNames[n] = true
 				}
 				return false
 			})
@@ -215,8 +212,8 @@ func condKind(cond ssa.Value) string {
 		}
 		return "int-compare"
 	case *ssa.UnOp:
-		if f, _ := loadedField(x); f != nil {
-			return "flag:" + f.Name()
+		if n := canonLoadedFieldName(x); n != "" {
+			return "flag:" + n
 		}
 		return "flag"
 	case *ssa.Field, *ssa.FieldAddr:
@@ -233,24 +230,86 @@ func collectSkipSites(p *Program, pkgs []string) (map[string][]string, map[strin
 	for _, rel := range pkgs {
 		for _, tf := range p.pkgFuncs(rel) {
 			withAnon(tf, func(g *ssa.Function) {
+				fkey := refKey(g)
+				if fkey == "" {
+					return
+				}
 				ord := map[string]int{}
 				allInstrs(g, func(ins ssa.Instruction) {
-					cl, ok := ins.(*ssa.Call)
-					if !ok || !cl.Call.IsInvoke() {
+					base := ""
+					var sitePos token.Pos
+					var siteBlock *ssa.BasicBlock
+					switch x := ins.(type) {
+					case *ssa.Store:
+						// a step that records something in a structure
+						if fa, ok := x.Addr.(*ssa.FieldAddr); ok {
+							// initialising a value the function has just allocated is not a recording step
+							root := ssa.Value(fa)
+							for {
+								if f2, ok := root.(*ssa.FieldAddr); ok {
+									root = f2.X
+									continue
+								}
+								break
+							}
+							if _, fresh := root.(*ssa.Alloc); !fresh {
+								base = fkey + "|store " + canonFieldKey(fa.X.Type(), fa.Field)
+								sitePos, siteBlock = x.Pos(), x.Block()
+							}
+						}
+					case *ssa.MapUpdate:
+						base = fkey + "|map update " + typeKey(x.Map.Type())
+						sitePos, siteBlock = x.Pos(), x.Block()
+					case *ssa.Send:
+						base = fkey + "|send " + typeKey(x.Chan.Type())
+						sitePos, siteBlock = x.Pos(), x.Block()
+					case *ssa.Call:
+						cl := x
+						sitePos, siteBlock = cl.Pos(), cl.Block()
+						if bi, isB := cl.Call.Value.(*ssa.Builtin); isB {
+							switch bi.Name() {
+							case "append":
+								base = fkey + "|append " + typeKey(cl.Type())
+							case "close", "delete":
+								base = fkey + "|" + bi.Name() + " " + typeKey(cl.Call.Args[0].Type())
+							}
+						} else if cl.Call.IsInvoke() {
+							if n := moduleIface(cl.Call.Value.Type()); n != nil {
+								base = fkey + "|" + n.Obj().Name() + "." + cl.Call.Method.Name()
+							}
+						} else if sc := cl.Call.StaticCallee(); sc != nil && sc.Pkg != nil && sc.Object() != nil {
+							switch {
+							case isErrorConstructor(sc):
+								// a rejection: a new condition around it means fewer requests are rejected
+								base = fkey + "|reject " + sc.Pkg.Pkg.Name() + "." + sc.Name()
+							case strings.HasPrefix(sc.Pkg.Pkg.Path(), modPath) && !pureLooking(sc.Name()):
+								// a function or method of the module that does something (not a getter)
+								short := sc.Name()
+								if r := sc.Signature.Recv(); r != nil {
+									rt := r.Type()
+									if p, ok := rt.(*types.Pointer); ok {
+										rt = p.Elem()
+									}
+									if nn, ok := rt.(*types.Named); ok {
+										short = nn.Obj().Name() + "." + short
+									}
+								} else {
+									short = sc.Pkg.Pkg.Name() + "." + short
+								}
+								base = fkey + "|" + short
+							}
+						}
+					}
+					if base == "" {
 						return
 					}
-					n := moduleIface(cl.Call.Value.Type())
-					if n == nil {
-						return
-					}
-					base := FuncName(g) + "|" + n.Obj().Name() + "." + cl.Call.Method.Name()
 					key := fmt.Sprintf("%s|%d", base, ord[base])
 					ord[base]++
 					set := map[string]bool{}
 					cp := map[string]token.Pos{}
 					// the conditions that dominate the call, and – for a call inside a
 					// function literal – those that dominate the creation of the literal
-					blocks := []*ssa.BasicBlock{cl.Block()}
+					blocks := []*ssa.BasicBlock{siteBlock}
 					for inner := g; inner.Parent() != nil; inner = inner.Parent() {
 						allInstrs(inner.Parent(), func(pi ssa.Instruction) {
 							if mc, ok := pi.(*ssa.MakeClosure); ok && mc.Fn == ssa.Value(inner) {
@@ -260,12 +319,17 @@ func collectSkipSites(p *Program, pkgs []string) (map[string][]string, map[strin
 					}
 					for _, blk := range blocks {
 						edgeFacts(blk, func(cond ssa.Value, val bool) bool {
+							if _, lowered := loweredBoolPhi(cond); lowered {
+								// the false side of a named `a && b` (or the true side of `a || b`): the unnamed
+								// form knows nothing there either
+								return true
+							}
 							k := condKind(cond)
 							set[k] = true
 							if _, ok := cp[k]; !ok {
 								cp[k] = cond.Pos()
 								if !cp[k].IsValid() {
-									cp[k] = cl.Pos()
+									cp[k] = sitePos
 								}
 							}
 							return true
@@ -277,13 +341,31 @@ func collectSkipSites(p *Program, pkgs []string) (map[string][]string, map[strin
 					}
 					sort.Strings(ks)
 					sites[key] = ks
-					poss[key] = cl.Pos()
+					poss[key] = sitePos
 					condPos[key] = cp
 				})
 			})
 		}
 	}
 	return sites, poss, condPos
+}
+
+// isErrorConstructor: status.Error(f), errors.New, fmt.Errorf and the module's StatusWrap* helpers.
+func isErrorConstructor(sc *ssa.Function) bool {
+	if sc.Pkg == nil {
+		return false
+	}
+	switch sc.Pkg.Pkg.Path() {
+	case "google.golang.org/grpc/status":
+		return sc.Name() == "Error" || sc.Name() == "Errorf"
+	case "errors":
+		return sc.Name() == "New"
+	case "fmt":
+		return sc.Name() == "Errorf"
+	case modPath + "/pkg/util":
+		return strings.HasPrefix(sc.Name(), "StatusWrap")
+	}
+	return false
 }
 
 func allSkipPkgs() []string {
@@ -340,27 +422,116 @@ func runSkipCond(c *Ctx, pkgs []string) {
 		keys = append(keys, k)
 	}
 	sort.Strings(keys)
-	for _, k := range keys {
-		want, known := ref.Sites[k]
-		parts := strings.SplitN(k, "|", 3)
-		if !known {
-			continue // a new or moved site: nothing to compare with
+	// Sites of one kind of step in one function are matched as a set, not by position: every
+	// current site needs a reference site of its own whose guards cover its guards (swapping two
+	// branches, or reordering two independent statements, permutes the sites).  When the number
+	// of sites changed, any reference site may justify a current one.
+	byBase := func(m map[string][]string) map[string][]string {
+		out := map[string][]string{}
+		for k := range m {
+			b := k[:strings.LastIndex(k, "|")]
+			out[b] = append(out[b], k)
 		}
-		allowed := map[string]bool{}
-		for _, w := range want {
-			allowed[w] = true
+		for b := range out {
+			sort.Strings(out[b])
 		}
-		var extra []string
-		for _, have := range sites[k] {
-			if !allowed[have] && !alwaysOK[have] {
-				extra = append(extra, have)
+		return out
+	}
+	refBy, curBy := byBase(ref.Sites), byBase(sites)
+	var bases []string
+	for b := range curBy {
+		bases = append(bases, b)
+	}
+	sort.Strings(bases)
+	covers := func(refKey, curKey string) bool {
+		al := map[string]bool{}
+		for _, w := range ref.Sites[refKey] {
+			al[w] = true
+		}
+		for _, have := range sites[curKey] {
+			if !al[have] && !alwaysOK[have] {
+				return false
 			}
 		}
-		if len(extra) == 0 {
-			c.Pass(parts[0], "no-new-skip "+parts[1]+"#"+parts[2], c.Pos(poss[k]), "guarded by the same kinds of condition as on the reference tree")
-			continue
+		return true
+	}
+	for _, b := range bases {
+		rks, cks := refBy[b], curBy[b]
+		if len(rks) == 0 {
+			continue // a new or moved kind of step: nothing to compare with
 		}
-		pos := condPos[k][extra[0]]
-		c.Fail(parts[0], "no-new-skip "+parts[1]+"#"+parts[2], c.Pos(poss[k]), fmt.Sprintf("the call %s is now reached only under a condition of a kind that did not guard it on the reference tree (%s, at %s): a step that used to be taken on this path can be skipped", parts[1], strings.Join(extra, ", "), c.Pos(pos)))
+		parts := strings.SplitN(b, "|", 2)
+		unmatched := map[string]bool{}
+		if len(rks) == len(cks) {
+			// bipartite matching (augmenting paths; the sets are tiny)
+			matchOfRef := map[string]string{}
+			var try func(ck string, seen map[string]bool) bool
+			try = func(ck string, seen map[string]bool) bool {
+				for _, rk := range rks {
+					if seen[rk] || !covers(rk, ck) {
+						continue
+					}
+					seen[rk] = true
+					if prev, taken := matchOfRef[rk]; !taken || try(prev, seen) {
+						matchOfRef[rk] = ck
+						return true
+					}
+				}
+				return false
+			}
+			for _, ck := range cks {
+				if !try(ck, map[string]bool{}) {
+					unmatched[ck] = true
+				}
+			}
+		} else {
+			for _, ck := range cks {
+				ok := false
+				for _, rk := range rks {
+					if covers(rk, ck) {
+						ok = true
+						break
+					}
+				}
+				if !ok {
+					unmatched[ck] = true
+				}
+			}
+		}
+		for _, ck := range cks {
+			ord := ck[strings.LastIndex(ck, "|")+1:]
+			if !unmatched[ck] {
+				c.Pass(parts[0], "no-new-skip "+parts[1]+"#"+ord, c.Pos(poss[ck]), "guarded by the same kinds of condition as on the reference tree")
+				continue
+			}
+			// what is new: a kind that guards no reference site of this step
+			anywhere := map[string]bool{}
+			for _, rk := range rks {
+				for _, w := range ref.Sites[rk] {
+					anywhere[w] = true
+				}
+			}
+			var extra []string
+			for _, have := range sites[ck] {
+				if !anywhere[have] && !alwaysOK[have] {
+					extra = append(extra, have)
+				}
+			}
+			if len(extra) == 0 && len(rks) != len(cks) {
+				c.PassTrivial(parts[0], "no-new-skip "+parts[1]+"#"+ord, c.Pos(poss[ck]), "guards recombined from those of the reference sites (the number of such steps changed)")
+				continue
+			}
+			if len(extra) == 0 {
+				// every guard occurs at some reference site of this step, but more sites than before are
+				// guarded that way: with as many sites as on the reference tree, one of them became conditional
+				for _, have := range sites[ck] {
+					if !alwaysOK[have] {
+						extra = append(extra, have)
+					}
+				}
+			}
+			pos := condPos[ck][extra[0]]
+			c.Fail(parts[0], "no-new-skip "+parts[1]+"#"+ord, c.Pos(poss[ck]), fmt.Sprintf("the step `%s` is now reached only under a condition of a kind that did not guard it on the reference tree (%s, at %s): a step that used to be taken on this path can be skipped", parts[1], strings.Join(extra, ", "), c.Pos(pos)))
+		}
 	}
 }
